@@ -1,4 +1,8 @@
-import Proofs.C10.Bare
+import Proofs.C10.FinMulti
+import Proofs.C10.Wrapped
+import Proofs.C10.ExampleKey
+import Proofs.C10.ExampleEcdsa
+import Proofs.C10.ExampleSchnorr
 import Proofs.C10.Checker
 import Proofs.E2E.C10
 import Props.C09
@@ -13,8 +17,9 @@ stream), and the signature checker handed to the evaluator is `Btc.Spend.checker
 
 * T1 (closure) by symbolic evaluation of `Core.verifyScript`, for every flag set (those with WITNESS / P2SH where the
   template needs them -- hence the default, the standard and the all-flags sets): **p2pk**, **p2pkh**, **p2wpkh**,
-  **p2sh-p2wpkh**, **bare / p2wsh / p2sh-p2wsh k-of-n multisig** (`1 ≤ k ≤ n ≤ 16`, any subset of k signers in key
-  order, NULLDUMMY dummy; the CHECKMULTISIG loop by induction on the key list), **taproot key path** and **taproot
+  **p2sh-p2wpkh**, **bare / p2sh / p2wsh / p2sh-p2wsh k-of-n multisig** (`1 ≤ k ≤ n ≤ 16`, 15 under legacy p2sh; any subset
+  of k signers in key order, NULLDUMMY dummy; the CHECKMULTISIG loop by induction on the key list; the finalizer's four
+  layouts for ALL key lists), **taproot key path** and **taproot
   script path with a single-key leaf**.  In the `closure_*` theorems the signature check is an oracle hypothesis;
   `sign_passes_checkECDSA` / `sign_passes_checkSchnorr` prove that the COMPOSED checker (`Spend.checkerOf`) accepts what the
   model's `sign` makes (C02-T1 + DER round trip, C03-T1 + codec, over any `Lawful` group), the `closure_*_signed`
@@ -273,6 +278,201 @@ theorem closure_multisig_p2sh_p2wsh (env : VerifyEnv) (h hr : Bytes) (keys sigs 
   rw [this]
   exact verify_p2sh_p2wsh_multisig env h hr keys sigs hl hrl hP hW hnz hhr hh hn hk hkeys hsl hal henc htot
 
+/-- T1 (legacy p2sh k-of-n multisig, `1 ≤ k ≤ n ≤ 15`: a 16-key redeem script is 547 bytes, more than a push may carry).
+    For EVERY flag set with P2SH: scriptSig `OP_0 <sig_1> … <sig_k> <redeem script>` -- the redeem push is a direct push
+    for n ≤ 2, OP_PUSHDATA1 for 3 ≤ n ≤ 7, OP_PUSHDATA2 for n ≥ 8 -- against `HASH160 <hash160(redeem)> EQUAL` is
+    accepted; `hsc` (FindAndDelete over the legacy script code) as for the bare template. -/
+theorem closure_multisig_p2sh (env : VerifyEnv) (hr : Bytes) (keys sigs : List Bytes) (hrl : hr.length = 20)
+    (hP : has env.flags FLAG_P2SH = true)
+    (hhr : env.hashes.ripemd160 (env.hashes.sha256 (multisig sigs.length keys)) = hr)
+    (hn : 1 ≤ keys.length ∧ keys.length ≤ 15) (hk : 1 ≤ sigs.length ∧ sigs.length ≤ keys.length)
+    (hkeys : ∀ x ∈ keys, isCompressedPubKey x = true) (hs : ∀ s ∈ sigs, 2 ≤ s.length ∧ s.length ≤ 75)
+    (hsc : multisigScriptCode (evalCtx env .BASE (multisig sigs.length keys)) sigs.reverse (multisig sigs.length keys) =
+      .ok (multisig sigs.length keys))
+    (hal : Aligned (chkOk (evalCtx env .BASE (multisig sigs.length keys)) (multisig sigs.length keys)) sigs keys)
+    (henc : ∀ s ∈ sigs, checkSignatureEncoding env.flags s = .ok ())
+    (htot : ∀ s ∈ sigs, ∀ x ∈ keys, ∃ b, env.checker.checkECDSA s x (multisig sigs.length keys) .BASE = .ok b) :
+    verifyScript env (serializePushes (([] :: sigs) ++ [multisig sigs.length keys])) (p2sh hr) [] = .ok () := by
+  have : serializePushes (([] :: sigs) ++ [multisig sigs.length keys]) =
+      0x00 :: (sigs.flatMap pushData ++ pushData (multisig sigs.length keys)) := by simp [serializePushes, pushData]
+  rw [this]
+  exact verify_p2sh_multisig env hr keys sigs hrl hP hhr hn hk hkeys hs hsc hal henc htot
+
+/-! ### the finalizer's layout for multisig inputs, for ALL key lists
+
+`p2ms_m_and_keys` reads `multisig m keys` back (induction over the key pushes), `_pushed_sigs` picks the signatures by key
+in SCRIPT order whatever the order `partial_sigs` was filled in (`selectSigs`), `_bip147_dummy` adds the empty dummy. -/
+
+/-- `p2ms_m_and_keys (m <keys> n CHECKMULTISIG) = (m, keys)` for compressed keys the key reader accepts -/
+theorem p2ms_reads_multisig (vk : Bytes → Bool) (m : Nat) (keys : List Bytes)
+    (hm : 1 ≤ m ∧ m ≤ keys.length) (hn : keys.length ≤ 16) (hkeys : ∀ x ∈ keys, x.length = 33)
+    (hvk : ∀ x ∈ keys, vk x = true) : p2msMAndKeys vk (multisig m keys) = some (m, keys) :=
+  p2ms_multisig vk m keys hm hn hkeys hvk
+
+theorem finalize_multisig_bare (vk : Bytes → Bool) (m : Nat) (keys : List Bytes) (ps : List (Bytes × Bytes))
+    (hm : 1 ≤ m ∧ m ≤ keys.length) (hn : keys.length ≤ 16) (hkeys : ∀ x ∈ keys, x.length = 33)
+    (hvk : ∀ x ∈ keys, vk x = true) (hen : m ≤ (keys.filterMap fun k => ps.lookup k).length) :
+    finalizedInput vk ⟨some (multisig m keys), [], [], ps⟩ = .ok (serializePushes ([] :: selectSigs m keys ps), []) :=
+  Eval.finalize_multisig_bare vk m keys ps hm hn hkeys hvk hen
+
+theorem finalize_multisig_p2sh (vk : Bytes → Bool) (m : Nat) (keys : List Bytes) (ps : List (Bytes × Bytes)) (hr : Bytes)
+    (hrl : hr.length = 20) (hm : 1 ≤ m ∧ m ≤ keys.length) (hn : keys.length ≤ 16) (hkeys : ∀ x ∈ keys, x.length = 33)
+    (hvk : ∀ x ∈ keys, vk x = true) (hen : m ≤ (keys.filterMap fun k => ps.lookup k).length) :
+    finalizedInput vk ⟨some (p2sh hr), multisig m keys, [], ps⟩ =
+      .ok (serializePushes (([] :: selectSigs m keys ps) ++ [multisig m keys]), []) :=
+  Eval.finalize_multisig_p2sh vk m keys ps hr hrl hm hn hkeys hvk hen
+
+theorem finalize_multisig_p2wsh (vk : Bytes → Bool) (m : Nat) (keys : List Bytes) (ps : List (Bytes × Bytes)) (h : Bytes)
+    (hm : 1 ≤ m ∧ m ≤ keys.length) (hn : keys.length ≤ 16) (hkeys : ∀ x ∈ keys, x.length = 33)
+    (hvk : ∀ x ∈ keys, vk x = true) (hen : m ≤ (keys.filterMap fun k => ps.lookup k).length) :
+    finalizedInput vk ⟨some (p2wsh h), [], multisig m keys, ps⟩ =
+      .ok ([], ([] :: selectSigs m keys ps) ++ [multisig m keys]) :=
+  Eval.finalize_multisig_p2wsh vk m keys ps h hm hn hkeys hvk hen
+
+theorem finalize_multisig_p2sh_p2wsh (vk : Bytes → Bool) (m : Nat) (keys : List Bytes) (ps : List (Bytes × Bytes))
+    (h hr : Bytes) (hm : 1 ≤ m ∧ m ≤ keys.length) (hn : keys.length ≤ 16) (hkeys : ∀ x ∈ keys, x.length = 33)
+    (hvk : ∀ x ∈ keys, vk x = true) (hen : m ≤ (keys.filterMap fun k => ps.lookup k).length) :
+    finalizedInput vk ⟨some (p2sh hr), p2wsh h, multisig m keys, ps⟩ =
+      .ok (serializePushes [p2wsh h], ([] :: selectSigs m keys ps) ++ [multisig m keys]) :=
+  Eval.finalize_multisig_p2sh_p2wsh vk m keys ps h hr hm hn hkeys hvk hen
+
+-- signatures filed out of key order, one by a key that is not in the script: by key, in script order
+example : selectSigs 2 [[2], [3], [4]] [([4], [9]), ([7], [7]), ([2], [8])] = [[8], [9]] := by decide
+
+/-! ### `pk` / `pkh` inside `sh`, `wsh`, `sh(wsh)` (the shapes `finalize()` closes without a solver; the last three were
+the keyed defect `finalize.sh_pkh.pubkey_push_missing`, repaired in /repo f2a4dfc2 -- the model mirrors the repaired code)
+
+One theorem per shape: the finalizer's layout AND the engine's acceptance, for every flag set with the flags the wrapper
+needs.  Legacy wrappers keep the FindAndDelete side condition of the inner template (`sig ≠ pk` / `sig ≠ h20`). -/
+
+theorem p2pk_facts (vk : Bytes → Bool) (pk : Bytes) (hl : pk.length = 33) :
+    p2msMAndKeys vk (p2pk pk) = none ∧ isP2pkh (p2pk pk) = false ∧ isP2wpkh (p2pk pk) = false ∧
+    (p2pk pk).isEmpty = false := by
+  have e : (p2pk pk).length = 35 := by simp [p2pk_eq pk hl, pkScript, hl]
+  refine ⟨by simp [p2msMAndKeys, e], by simp [isP2pkh, e], by simp [isP2wpkh, e], ?_⟩
+  rw [p2pk_eq pk hl]; rfl
+
+theorem p2pkh_facts (vk : Bytes → Bool) (h : Bytes) (hl : h.length = 20) :
+    p2msMAndKeys vk (p2pkh h) = none ∧ isP2pkh (p2pkh h) = true ∧ isP2wpkh (p2pkh h) = false ∧
+    (p2pkh h).isEmpty = false := by
+  have e : (p2pkh h).length = 25 := by simp [p2pkh, Gen.Spend.P2PKH_PREFIX, Gen.Spend.P2PKH_SUFFIX, hl]
+  have hd : (h ++ [136, 172]).drop 20 = [136, 172] := List.drop_left' hl
+  refine ⟨by simp [p2msMAndKeys, e], ?_, by simp [isP2wpkh, e], by simp [p2pkh, Gen.Spend.P2PKH_PREFIX]⟩
+  simp [isP2pkh, p2pkh, Gen.Spend.P2PKH_PREFIX, Gen.Spend.P2PKH_SUFFIX, getB, hl, hd]
+
+theorem isP2sh_p2sh (hr : Bytes) (hrl : hr.length = 20) : isP2sh (p2sh hr) = true := by
+  have h87 : (hr ++ [135])[20]? = some 135 := by
+    rw [List.getElem?_append_right (by omega)]; simp [hrl]
+  simp [isP2sh, p2sh, Gen.Spend.P2SH_PREFIX, Gen.Spend.P2SH_SUFFIX, getB, List.getD, h87, hrl]
+
+/-- T1 (wsh(pk)). -/
+theorem closure_wsh_pk (vk : Bytes → Bool) (env : VerifyEnv) (h sig pk : Bytes) (hl : h.length = 32)
+    (hW : has env.flags FLAG_WITNESS = true) (hnz : castToBool h = true)
+    (hh : env.hashes.sha256 (p2pk pk) = h)
+    (henc : checkSignatureEncoding env.flags sig = .ok ()) (hslen : sig.length ≤ 520)
+    (hpk : isCompressedPubKey pk = true)
+    (hsig : env.checker.checkECDSA sig pk (p2pk pk) .WITNESS_V0 = .ok true) :
+    ∃ ss wit, finalizedInput vk ⟨some (p2wsh h), [], p2pk pk, [(pk, sig)]⟩ = .ok (ss, wit) ∧
+      verifyScript env ss (p2wsh h) wit = .ok () := by
+  have hpl : pk.length = 33 := by
+    simp only [isCompressedPubKey, Bool.and_eq_true, beq_iff_eq] at hpk; exact hpk.1
+  obtain ⟨f1, f2, _, f4⟩ := p2pk_facts vk pk hpl
+  refine ⟨[], [sig, p2pk pk], ?_, ?_⟩
+  · simp [finalizedInput, pushedSigs, satisfiedScript, bip147Dummy, isP2ms, f1, f2, f4, serializePushes,
+      bind, Except.bind, pure, Except.pure]
+  · rw [p2pk_eq pk hpl] at hh hsig ⊢
+    exact verify_wsh_pk env h sig pk hl hW hnz hh henc hslen hpk hsig
+
+/-- T1 (sh(wsh(pk))). -/
+theorem closure_sh_wsh_pk (vk : Bytes → Bool) (env : VerifyEnv) (h hr sig pk : Bytes) (hl : h.length = 32)
+    (hrl : hr.length = 20) (hP : has env.flags FLAG_P2SH = true)
+    (hW : has env.flags FLAG_WITNESS = true) (hnz : castToBool h = true)
+    (hhr : env.hashes.ripemd160 (env.hashes.sha256 (p2wsh h)) = hr)
+    (hh : env.hashes.sha256 (p2pk pk) = h)
+    (henc : checkSignatureEncoding env.flags sig = .ok ()) (hslen : sig.length ≤ 520)
+    (hpk : isCompressedPubKey pk = true)
+    (hsig : env.checker.checkECDSA sig pk (p2pk pk) .WITNESS_V0 = .ok true) :
+    ∃ ss wit, finalizedInput vk ⟨some (p2sh hr), p2wsh h, p2pk pk, [(pk, sig)]⟩ = .ok (ss, wit) ∧
+      verifyScript env ss (p2sh hr) wit = .ok () := by
+  have hpl : pk.length = 33 := by
+    simp only [isCompressedPubKey, Bool.and_eq_true, beq_iff_eq] at hpk; exact hpk.1
+  obtain ⟨f1, f2, _, f4⟩ := p2pk_facts vk pk hpl
+  have hne : (p2wsh h).isEmpty = false := by simp [p2wsh, Gen.Spend.P2WSH_PREFIX]
+  refine ⟨pushData (p2wsh h), [sig, p2pk pk], ?_, ?_⟩
+  · simp [finalizedInput, pushedSigs, satisfiedScript, bip147Dummy, isP2ms, f1, f2, f4, hne, serializePushes,
+      bind, Except.bind, pure, Except.pure]
+  · rw [p2pk_eq pk hpl] at hh hsig ⊢
+    exact verify_sh_wsh_pk env h hr sig pk hl hrl hP hW hnz hhr hh henc hslen hpk hsig
+
+/-- T1 (sh(pk)): scriptSig `<sig> <redeem>`. -/
+theorem closure_sh_pk (vk : Bytes → Bool) (env : VerifyEnv) (hr sig pk : Bytes) (hrl : hr.length = 20)
+    (hP : has env.flags FLAG_P2SH = true)
+    (hhr : env.hashes.ripemd160 (env.hashes.sha256 (p2pk pk)) = hr)
+    (henc : checkSignatureEncoding env.flags sig = .ok ()) (hs2 : 2 ≤ sig.length) (hs : sig.length < 76)
+    (hpk : isCompressedPubKey pk = true) (hne : sig ≠ pk)
+    (hsig : env.checker.checkECDSA sig pk (p2pk pk) .BASE = .ok true) :
+    ∃ ss wit, finalizedInput vk ⟨some (p2sh hr), p2pk pk, [], [(pk, sig)]⟩ = .ok (ss, wit) ∧
+      verifyScript env ss (p2sh hr) wit = .ok () := by
+  have hpl : pk.length = 33 := by
+    simp only [isCompressedPubKey, Bool.and_eq_true, beq_iff_eq] at hpk; exact hpk.1
+  obtain ⟨f1, f2, f3, f4⟩ := p2pk_facts vk pk hpl
+  have hsh := isP2sh_p2sh hr hrl
+  refine ⟨pushData sig ++ pushData (p2pk pk), [], ?_, ?_⟩
+  · simp [finalizedInput, pushedSigs, satisfiedScript, spentScript, bip147Dummy, isP2ms, hsh, f1, f2, f3, f4,
+      serializePushes, bind, Except.bind, pure, Except.pure]
+  · rw [p2pk_eq pk hpl] at hhr hsig ⊢
+    exact verify_sh_pk env hr sig pk hrl hP hhr henc hs2 hs hpk hne hsig
+
+/-- T1 (wsh(pkh)): witness `[sig, pk, p2pkh script]`. -/
+theorem closure_wsh_pkh (vk : Bytes → Bool) (env : VerifyEnv) (h h20 sig pk : Bytes) (hl : h.length = 32)
+    (hl20 : h20.length = 20) (hW : has env.flags FLAG_WITNESS = true) (hnz : castToBool h = true)
+    (hh : env.hashes.sha256 (p2pkh h20) = h) (hh20 : env.hashes.ripemd160 (env.hashes.sha256 pk) = h20)
+    (henc : checkSignatureEncoding env.flags sig = .ok ()) (hslen : sig.length ≤ 520)
+    (hpk : isCompressedPubKey pk = true)
+    (hsig : env.checker.checkECDSA sig pk (p2pkh h20) .WITNESS_V0 = .ok true) :
+    ∃ ss wit, finalizedInput vk ⟨some (p2wsh h), [], p2pkh h20, [(pk, sig)]⟩ = .ok (ss, wit) ∧
+      verifyScript env ss (p2wsh h) wit = .ok () := by
+  obtain ⟨f1, f2, _, f4⟩ := p2pkh_facts vk h20 hl20
+  refine ⟨[], [sig, pk, p2pkh h20], ?_, ?_⟩
+  · simp [finalizedInput, pushedSigs, satisfiedScript, bip147Dummy, isP2ms, singleKey, f1, f2, f4, serializePushes,
+      bind, Except.bind, pure, Except.pure, Except.map]
+  · exact verify_wsh_pkh env h h20 sig pk hl hl20 hW hnz hh hh20 henc hslen hpk hsig
+
+/-- T1 (sh(wsh(pkh))). -/
+theorem closure_sh_wsh_pkh (vk : Bytes → Bool) (env : VerifyEnv) (h hr h20 sig pk : Bytes) (hl : h.length = 32)
+    (hrl : hr.length = 20) (hl20 : h20.length = 20) (hP : has env.flags FLAG_P2SH = true)
+    (hW : has env.flags FLAG_WITNESS = true) (hnz : castToBool h = true)
+    (hhr : env.hashes.ripemd160 (env.hashes.sha256 (p2wsh h)) = hr)
+    (hh : env.hashes.sha256 (p2pkh h20) = h) (hh20 : env.hashes.ripemd160 (env.hashes.sha256 pk) = h20)
+    (henc : checkSignatureEncoding env.flags sig = .ok ()) (hslen : sig.length ≤ 520)
+    (hpk : isCompressedPubKey pk = true)
+    (hsig : env.checker.checkECDSA sig pk (p2pkh h20) .WITNESS_V0 = .ok true) :
+    ∃ ss wit, finalizedInput vk ⟨some (p2sh hr), p2wsh h, p2pkh h20, [(pk, sig)]⟩ = .ok (ss, wit) ∧
+      verifyScript env ss (p2sh hr) wit = .ok () := by
+  obtain ⟨f1, f2, _, f4⟩ := p2pkh_facts vk h20 hl20
+  have hne : (p2wsh h).isEmpty = false := by simp [p2wsh, Gen.Spend.P2WSH_PREFIX]
+  refine ⟨pushData (p2wsh h), [sig, pk, p2pkh h20], ?_, ?_⟩
+  · simp [finalizedInput, pushedSigs, satisfiedScript, bip147Dummy, isP2ms, singleKey, f1, f2, f4, hne, serializePushes,
+      bind, Except.bind, pure, Except.pure, Except.map]
+  · exact verify_sh_wsh_pkh env h hr h20 sig pk hl hrl hl20 hP hW hnz hhr hh hh20 henc hslen hpk hsig
+
+/-- T1 (sh(pkh)): scriptSig `<sig> <pk> <redeem>`. -/
+theorem closure_sh_pkh (vk : Bytes → Bool) (env : VerifyEnv) (hr h20 sig pk : Bytes) (hrl : hr.length = 20)
+    (hl20 : h20.length = 20) (hP : has env.flags FLAG_P2SH = true)
+    (hhr : env.hashes.ripemd160 (env.hashes.sha256 (p2pkh h20)) = hr)
+    (hh20 : env.hashes.ripemd160 (env.hashes.sha256 pk) = h20)
+    (henc : checkSignatureEncoding env.flags sig = .ok ()) (hs2 : 2 ≤ sig.length) (hs : sig.length < 76)
+    (hpk : isCompressedPubKey pk = true) (hne : sig ≠ h20)
+    (hsig : env.checker.checkECDSA sig pk (p2pkh h20) .BASE = .ok true) :
+    ∃ ss wit, finalizedInput vk ⟨some (p2sh hr), p2pkh h20, [], [(pk, sig)]⟩ = .ok (ss, wit) ∧
+      verifyScript env ss (p2sh hr) wit = .ok () := by
+  obtain ⟨f1, f2, f3, f4⟩ := p2pkh_facts vk h20 hl20
+  have hsh := isP2sh_p2sh hr hrl
+  refine ⟨pushData sig ++ (pushData pk ++ pushData (p2pkh h20)), [], ?_, ?_⟩
+  · simp [finalizedInput, pushedSigs, satisfiedScript, spentScript, bip147Dummy, isP2ms, singleKey, hsh, f1, f2, f3, f4,
+      serializePushes, bind, Except.bind, pure, Except.pure]
+  · exact verify_sh_pkh env hr h20 sig pk hrl hl20 hP hhr hh20 henc hs2 hs hpk hne hsig
+
 /-- the hash types a psbt input may ask the signer for (regenerated from `sig_hash.SIG_HASH_TYPES`) are ones the engine's
     checks define: `IsDefinedHashtypeSignature` (STRICTENC) for the six ECDSA ones, BIP341's seven for taproot, and the
     signer's fall-backs ALL / DEFAULT are among them -/
@@ -479,6 +679,23 @@ theorem closure_multisig_bare_signed {α G : Type} [AddCommGroup G] (C : Crypto 
       exact Spend.sign_passes_checkECDSA C L cx _ .BASE ht hht hk' pk Q hp hQ hsign der hder hmax) hal)
     henc (fun s _ x _ => checkECDSA_total C cx s x _ _)
 
+/-- T1 end to end (legacy p2sh k-of-n multisig, n ≤ 15); `hsc` stays a hypothesis. -/
+theorem closure_multisig_p2sh_signed {α G : Type} [AddCommGroup G] (C : Crypto α) (L : Lawful C.o G)
+    (flags : Nat) (cx : TxCtx) (hr : Bytes) (keys sigs : List Bytes) (hrl : hr.length = 20)
+    (hP : has flags FLAG_P2SH = true) (hhr : C.ripemd160 (C.S (multisig sigs.length keys)) = hr)
+    (hn : 1 ≤ keys.length ∧ keys.length ≤ 15) (hk : 1 ≤ sigs.length ∧ sigs.length ≤ keys.length)
+    (hkeys : ∀ x ∈ keys, isCompressedPubKey x = true) (hs : ∀ s ∈ sigs, 2 ≤ s.length ∧ s.length ≤ 75)
+    (hsc : multisigScriptCode (evalCtx (envOf C flags cx) .BASE (multisig sigs.length keys)) sigs.reverse
+      (multisig sigs.length keys) = .ok (multisig sigs.length keys))
+    (hal : Aligned (MadeBy C L cx (multisig sigs.length keys) .BASE) sigs keys)
+    (henc : ∀ s ∈ sigs, checkSignatureEncoding flags s = .ok ()) :
+    verifyScript (envOf C flags cx) (serializePushes (([] :: sigs) ++ [multisig sigs.length keys])) (p2sh hr) [] = .ok () :=
+  closure_multisig_p2sh (envOf C flags cx) hr keys sigs hrl hP hhr hn hk hkeys hs hsc
+    (aligned_mono (fun sig pk ⟨ht, _, _, _, _, _, Q, der, hht, hk', hp, hQ, hsign, hder, hmax, e⟩ => by
+      subst e
+      exact Spend.sign_passes_checkECDSA C L cx _ .BASE ht hht hk' pk Q hp hQ hsign der hder hmax) hal)
+    henc (fun s _ x _ => checkECDSA_total C cx s x _ _)
+
 /-- T1 end to end (taproot key path): the witness `[sig]` with `sig` = the 64 bytes of `ssa.sign_` by the (tweaked) key
     `q` over BIP341's key-path message of THIS transaction (+ hash-type byte unless DEFAULT), `prog` the 32-byte x-only
     key of `q·G` (the output key: C12 `key_agreement`). -/
@@ -679,6 +896,22 @@ theorem closure_multisig_bare_secp256k1 (flags : Nat) (cx : TxCtx) (keys sigs : 
     (aligned_mono (fun sig pk hm => madeBySecp_passes cx _ _ sig pk hm) hal)
     henc (fun s _ x _ => checkECDSA_total secpCrypto cx s x _ _)
 
+/-- **T1 end to end on secp256k1 (legacy p2sh k-of-n multisig, n ≤ 15)**; `hsc` stays. -/
+theorem closure_multisig_p2sh_secp256k1 (flags : Nat) (cx : TxCtx) (hr : Bytes) (keys sigs : List Bytes)
+    (hrl : hr.length = 20) (hP : has flags FLAG_P2SH = true)
+    (hhr : ripemd160 (sha256 (multisig sigs.length keys)) = hr)
+    (hn : 1 ≤ keys.length ∧ keys.length ≤ 15) (hk : 1 ≤ sigs.length ∧ sigs.length ≤ keys.length)
+    (hkeys : ∀ x ∈ keys, isCompressedPubKey x = true) (hs : ∀ s ∈ sigs, 2 ≤ s.length ∧ s.length ≤ 75)
+    (hsc : multisigScriptCode (evalCtx (envOf secpCrypto flags cx) .BASE (multisig sigs.length keys)) sigs.reverse
+      (multisig sigs.length keys) = .ok (multisig sigs.length keys))
+    (hal : Aligned (MadeBySecp cx (multisig sigs.length keys) .BASE) sigs keys)
+    (henc : ∀ s ∈ sigs, checkSignatureEncoding flags s = .ok ()) :
+    verifyScript (envOf secpCrypto flags cx) (serializePushes (([] :: sigs) ++ [multisig sigs.length keys])) (p2sh hr) [] =
+      .ok () :=
+  closure_multisig_p2sh (envOf secpCrypto flags cx) hr keys sigs hrl hP hhr hn hk hkeys hs hsc
+    (aligned_mono (fun sig pk hm => madeBySecp_passes cx _ _ sig pk hm) hal)
+    henc (fun s _ x _ => checkECDSA_total secpCrypto cx s x _ _)
+
 /-- **T1 end to end on secp256k1 (taproot script path, single-key leaf)**: `sig` made by the LEAF key `q` (x-only `x`)
     over BIP342's message; control-block acceptance (`hcom`) is C12's. -/
 theorem closure_taproot_pk_leaf_secp256k1 (flags : Nat) (cx : TxCtx) (prog x control : Bytes) (m ht : Nat) (hht : ht < 256)
@@ -701,6 +934,108 @@ theorem closure_taproot_pk_leaf_secp256k1 (flags : Nat) (cx : TxCtx) (prog x con
     | nil => simp at h64
     | cons _ _ => rfl
   · split <;> simp [h64]
+
+/-! ### the six wrapped shapes on the executed instance -/
+
+/-- **T1 end to end on secp256k1 (wsh(pk))**. -/
+theorem closure_wsh_pk_secp256k1 (vk : Bytes → Bool) (flags : Nat) (cx : TxCtx) (h pk : Bytes) (ht : Nat) (hht : ht < 256)
+    {q k r s kid : Int} (hl : h.length = 32) (hW : has flags FLAG_WITNESS = true) (hnz : castToBool h = true)
+    (hh : sha256 (p2pk pk) = h)
+    (hpk : isCompressedPubKey pk = true)
+    (hp : secpParsePub pk = some ((EC.ops EC.secp256k1).mul q EC.secp256k1.G)) (hk : 0 < k ∧ k < EC.secp256k1.n)
+    (hsign : Ecdsa.signRecoverable (EC.ops EC.secp256k1)
+      (Rfc6979.challenge EC.secp256k1.n (engineEcdsaDigest secpCrypto cx (p2pk pk) .WITNESS_V0 ht)) q k true = .ok (r, s, kid))
+    (der : Bytes) (hder : Der.serialize r s = .ok der) (hmax : der.length ≤ Gen.VarInt.MAX_SIZE)
+    (henc : checkSignatureEncoding flags (der ++ [UInt8.ofNat ht]) = .ok ())
+    (hslen : (der ++ [UInt8.ofNat ht]).length ≤ 520) :
+    ∃ ss wit, finalizedInput vk ⟨some (p2wsh h), [], p2pk pk, [(pk, der ++ [UInt8.ofNat ht])]⟩ = .ok (ss, wit) ∧
+      verifyScript (envOf secpCrypto flags cx) ss (p2wsh h) wit = .ok () :=
+  closure_wsh_pk vk (envOf secpCrypto flags cx) h _ pk hl hW hnz hh henc hslen hpk
+    (Btc.E2E.sign_passes_checkECDSA_secp256k1 cx (p2pk pk) .WITNESS_V0 ht hht hk pk hp hsign der hder hmax)
+
+/-- **T1 end to end on secp256k1 (sh(wsh(pk)))**. -/
+theorem closure_sh_wsh_pk_secp256k1 (vk : Bytes → Bool) (flags : Nat) (cx : TxCtx) (h hr pk : Bytes) (ht : Nat) (hht : ht < 256)
+    {q k r s kid : Int} (hl : h.length = 32) (hrl : hr.length = 20) (hP : has flags FLAG_P2SH = true)
+    (hW : has flags FLAG_WITNESS = true) (hnz : castToBool h = true)
+    (hhr : ripemd160 (sha256 (p2wsh h)) = hr) (hh : sha256 (p2pk pk) = h)
+    (hpk : isCompressedPubKey pk = true)
+    (hp : secpParsePub pk = some ((EC.ops EC.secp256k1).mul q EC.secp256k1.G)) (hk : 0 < k ∧ k < EC.secp256k1.n)
+    (hsign : Ecdsa.signRecoverable (EC.ops EC.secp256k1)
+      (Rfc6979.challenge EC.secp256k1.n (engineEcdsaDigest secpCrypto cx (p2pk pk) .WITNESS_V0 ht)) q k true = .ok (r, s, kid))
+    (der : Bytes) (hder : Der.serialize r s = .ok der) (hmax : der.length ≤ Gen.VarInt.MAX_SIZE)
+    (henc : checkSignatureEncoding flags (der ++ [UInt8.ofNat ht]) = .ok ())
+    (hslen : (der ++ [UInt8.ofNat ht]).length ≤ 520) :
+    ∃ ss wit, finalizedInput vk ⟨some (p2sh hr), p2wsh h, p2pk pk, [(pk, der ++ [UInt8.ofNat ht])]⟩ = .ok (ss, wit) ∧
+      verifyScript (envOf secpCrypto flags cx) ss (p2sh hr) wit = .ok () :=
+  closure_sh_wsh_pk vk (envOf secpCrypto flags cx) h hr _ pk hl hrl hP hW hnz hhr hh henc hslen hpk
+    (Btc.E2E.sign_passes_checkECDSA_secp256k1 cx (p2pk pk) .WITNESS_V0 ht hht hk pk hp hsign der hder hmax)
+
+/-- **T1 end to end on secp256k1 (sh(pk))**. -/
+theorem closure_sh_pk_secp256k1 (vk : Bytes → Bool) (flags : Nat) (cx : TxCtx) (hr pk : Bytes) (ht : Nat) (hht : ht < 256)
+    {q k r s kid : Int} (hrl : hr.length = 20) (hP : has flags FLAG_P2SH = true)
+    (hhr : ripemd160 (sha256 (p2pk pk)) = hr)
+    (hpk : isCompressedPubKey pk = true)
+    (hp : secpParsePub pk = some ((EC.ops EC.secp256k1).mul q EC.secp256k1.G)) (hk : 0 < k ∧ k < EC.secp256k1.n)
+    (hsign : Ecdsa.signRecoverable (EC.ops EC.secp256k1)
+      (Rfc6979.challenge EC.secp256k1.n (engineEcdsaDigest secpCrypto cx (p2pk pk) .BASE ht)) q k true = .ok (r, s, kid))
+    (der : Bytes) (hder : Der.serialize r s = .ok der) (hmax : der.length ≤ Gen.VarInt.MAX_SIZE)
+    (henc : checkSignatureEncoding flags (der ++ [UInt8.ofNat ht]) = .ok ())
+    (hs2 : 2 ≤ (der ++ [UInt8.ofNat ht]).length) (hs : (der ++ [UInt8.ofNat ht]).length < 76)
+    (hne : der ++ [UInt8.ofNat ht] ≠ pk) :
+    ∃ ss wit, finalizedInput vk ⟨some (p2sh hr), p2pk pk, [], [(pk, der ++ [UInt8.ofNat ht])]⟩ = .ok (ss, wit) ∧
+      verifyScript (envOf secpCrypto flags cx) ss (p2sh hr) wit = .ok () :=
+  closure_sh_pk vk (envOf secpCrypto flags cx) hr _ pk hrl hP hhr henc hs2 hs hpk hne
+    (Btc.E2E.sign_passes_checkECDSA_secp256k1 cx (p2pk pk) .BASE ht hht hk pk hp hsign der hder hmax)
+
+/-- **T1 end to end on secp256k1 (wsh(pkh))**. -/
+theorem closure_wsh_pkh_secp256k1 (vk : Bytes → Bool) (flags : Nat) (cx : TxCtx) (h h20 pk : Bytes) (ht : Nat) (hht : ht < 256)
+    {q k r s kid : Int} (hl : h.length = 32) (hl20 : h20.length = 20) (hW : has flags FLAG_WITNESS = true)
+    (hnz : castToBool h = true) (hh : sha256 (p2pkh h20) = h) (hh20 : ripemd160 (sha256 pk) = h20)
+    (hpk : isCompressedPubKey pk = true)
+    (hp : secpParsePub pk = some ((EC.ops EC.secp256k1).mul q EC.secp256k1.G)) (hk : 0 < k ∧ k < EC.secp256k1.n)
+    (hsign : Ecdsa.signRecoverable (EC.ops EC.secp256k1)
+      (Rfc6979.challenge EC.secp256k1.n (engineEcdsaDigest secpCrypto cx (p2pkh h20) .WITNESS_V0 ht)) q k true = .ok (r, s, kid))
+    (der : Bytes) (hder : Der.serialize r s = .ok der) (hmax : der.length ≤ Gen.VarInt.MAX_SIZE)
+    (henc : checkSignatureEncoding flags (der ++ [UInt8.ofNat ht]) = .ok ())
+    (hslen : (der ++ [UInt8.ofNat ht]).length ≤ 520) :
+    ∃ ss wit, finalizedInput vk ⟨some (p2wsh h), [], p2pkh h20, [(pk, der ++ [UInt8.ofNat ht])]⟩ = .ok (ss, wit) ∧
+      verifyScript (envOf secpCrypto flags cx) ss (p2wsh h) wit = .ok () :=
+  closure_wsh_pkh vk (envOf secpCrypto flags cx) h h20 _ pk hl hl20 hW hnz hh hh20 henc hslen hpk
+    (Btc.E2E.sign_passes_checkECDSA_secp256k1 cx (p2pkh h20) .WITNESS_V0 ht hht hk pk hp hsign der hder hmax)
+
+/-- **T1 end to end on secp256k1 (sh(wsh(pkh)))**. -/
+theorem closure_sh_wsh_pkh_secp256k1 (vk : Bytes → Bool) (flags : Nat) (cx : TxCtx) (h hr h20 pk : Bytes) (ht : Nat) (hht : ht < 256)
+    {q k r s kid : Int} (hl : h.length = 32) (hrl : hr.length = 20) (hl20 : h20.length = 20)
+    (hP : has flags FLAG_P2SH = true) (hW : has flags FLAG_WITNESS = true) (hnz : castToBool h = true)
+    (hhr : ripemd160 (sha256 (p2wsh h)) = hr) (hh : sha256 (p2pkh h20) = h) (hh20 : ripemd160 (sha256 pk) = h20)
+    (hpk : isCompressedPubKey pk = true)
+    (hp : secpParsePub pk = some ((EC.ops EC.secp256k1).mul q EC.secp256k1.G)) (hk : 0 < k ∧ k < EC.secp256k1.n)
+    (hsign : Ecdsa.signRecoverable (EC.ops EC.secp256k1)
+      (Rfc6979.challenge EC.secp256k1.n (engineEcdsaDigest secpCrypto cx (p2pkh h20) .WITNESS_V0 ht)) q k true = .ok (r, s, kid))
+    (der : Bytes) (hder : Der.serialize r s = .ok der) (hmax : der.length ≤ Gen.VarInt.MAX_SIZE)
+    (henc : checkSignatureEncoding flags (der ++ [UInt8.ofNat ht]) = .ok ())
+    (hslen : (der ++ [UInt8.ofNat ht]).length ≤ 520) :
+    ∃ ss wit, finalizedInput vk ⟨some (p2sh hr), p2wsh h, p2pkh h20, [(pk, der ++ [UInt8.ofNat ht])]⟩ = .ok (ss, wit) ∧
+      verifyScript (envOf secpCrypto flags cx) ss (p2sh hr) wit = .ok () :=
+  closure_sh_wsh_pkh vk (envOf secpCrypto flags cx) h hr h20 _ pk hl hrl hl20 hP hW hnz hhr hh hh20 henc hslen hpk
+    (Btc.E2E.sign_passes_checkECDSA_secp256k1 cx (p2pkh h20) .WITNESS_V0 ht hht hk pk hp hsign der hder hmax)
+
+/-- **T1 end to end on secp256k1 (sh(pkh))**. -/
+theorem closure_sh_pkh_secp256k1 (vk : Bytes → Bool) (flags : Nat) (cx : TxCtx) (hr h20 pk : Bytes) (ht : Nat) (hht : ht < 256)
+    {q k r s kid : Int} (hrl : hr.length = 20) (hl20 : h20.length = 20) (hP : has flags FLAG_P2SH = true)
+    (hhr : ripemd160 (sha256 (p2pkh h20)) = hr) (hh20 : ripemd160 (sha256 pk) = h20)
+    (hpk : isCompressedPubKey pk = true)
+    (hp : secpParsePub pk = some ((EC.ops EC.secp256k1).mul q EC.secp256k1.G)) (hk : 0 < k ∧ k < EC.secp256k1.n)
+    (hsign : Ecdsa.signRecoverable (EC.ops EC.secp256k1)
+      (Rfc6979.challenge EC.secp256k1.n (engineEcdsaDigest secpCrypto cx (p2pkh h20) .BASE ht)) q k true = .ok (r, s, kid))
+    (der : Bytes) (hder : Der.serialize r s = .ok der) (hmax : der.length ≤ Gen.VarInt.MAX_SIZE)
+    (henc : checkSignatureEncoding flags (der ++ [UInt8.ofNat ht]) = .ok ())
+    (hs2 : 2 ≤ (der ++ [UInt8.ofNat ht]).length) (hs : (der ++ [UInt8.ofNat ht]).length < 76)
+    (hne : der ++ [UInt8.ofNat ht] ≠ h20) :
+    ∃ ss wit, finalizedInput vk ⟨some (p2sh hr), p2pkh h20, [], [(pk, der ++ [UInt8.ofNat ht])]⟩ = .ok (ss, wit) ∧
+      verifyScript (envOf secpCrypto flags cx) ss (p2sh hr) wit = .ok () :=
+  closure_sh_pkh vk (envOf secpCrypto flags cx) hr h20 _ pk hrl hl20 hP hhr hh20 henc hs2 hs hpk hne
+    (Btc.E2E.sign_passes_checkECDSA_secp256k1 cx (p2pkh h20) .BASE ht hht hk pk hp hsign der hder hmax)
 
 /-! ## T2 — tampering changes the message (or exhibits a collision) -/
 
@@ -877,13 +1212,27 @@ example : (pushedSigs (fun _ => true)
     ⟨some (multisig 2 [List.replicate 33 2, List.replicate 33 3, List.replicate 33 4]), [], [],
       [(List.replicate 33 4, [9]), (List.replicate 33 9, [7]), (List.replicate 33 2, [8])]⟩) = .ok [[8], [9]] := by decide
 
+/-! ### the `_secp256k1` closures are not vacuous: concrete spends, every hypothesis discharged (`Proofs/C10/Example*.lean`)
+
+p2wpkh (ECDSA, SIGHASH_ALL) and taproot key path (BIP340, SIGHASH_DEFAULT) by the KERNEL -- real SHA-256 / RIPEMD-160 and
+secp256k1 arithmetic under `decide +kernel`; the other templates (p2pk, p2pkh, p2sh-p2wpkh over the six ECDSA hash types;
+2-of-3 bare / p2sh / p2wsh / p2sh-p2wsh multisig) by `#guard` in that module: sign, serialize, finalize, composed engine
+accepts, under all twenty-one flags. -/
+
+example : ∃ ss wit, finalizedInput (fun _ => true) ⟨some (p2wpkh Ex.h), [], [], [(Ex.pk, Ex.der ++ [UInt8.ofNat 1])]⟩ =
+      .ok (ss, wit) ∧ verifyScript (envOf secpCrypto Gen.Spend.EVERY_FLAG Ex.cx) ss (p2wpkh Ex.h) wit = .ok () :=
+  closure_p2wpkh_secp256k1 (fun _ => true) Gen.Spend.EVERY_FLAG Ex.cx Ex.h Ex.pk 1 (by decide) (by decide) (by decide)
+    (by decide) Ex.hh (by decide) Ex.hp Ex.hk Ex.hsign Ex.der Ex.hder (by decide +kernel) Ex.henc (by decide +kernel)
+
+example : verifyScript (envOf secpCrypto Gen.Spend.EVERY_FLAG Ex.cxT) [] (p2tr Ex.prog) [Ex.sig64 ++ []] = .ok () :=
+  closure_taproot_key_secp256k1 Gen.Spend.EVERY_FLAG Ex.cxT Ex.prog 0 (by decide) (by decide) (by decide) (by decide)
+    Ex.hdefT 4 Ex.q (List.replicate 32 0) Ex.sgT Ex.hsignT Ex.sig64 Ex.hserT Ex.hpkT
+
 /-
 NOT PROVED (full statements kept; the executable composition `Spend.verifyInput`, run against btclib's engine on every
 finished input and on tampered ones, is what covers them):
-* closure_multisig_p2sh (legacy p2sh around the multisig script): needs `getOp` of an OP_PUSHDATA1/2 push of the redeem
-  script (3 + 34·n bytes, > 75 for n ≥ 3) on top of `verify_bare_multisig`'s pieces; the finalizer's layout for
-  multisig (`p2ms_m_and_keys` read-back of `multisig k keys`) is a `decide` example and the `c10.fin` stream, not yet a
-  theorem for all key lists; `hsc` (FindAndDelete finds no pushed signature among the key pushes) is a hypothesis;
+* `hsc` of the legacy multisig templates (FindAndDelete finds no pushed signature among the key pushes of the script
+  code) is a hypothesis of `closure_multisig_bare` / `closure_multisig_p2sh`;
 * closure for a `multi_a` leaf: the library's own finalizer refuses such a leaf (`single_leaf_key`); the flows close it
   with a solver built on `miniscript.satisfy`, and its satisfaction is C15's business;
 * that `Der.serialize r s ‖ ht` passes `checkSignatureEncoding` (BIP66 validity of the DER writer's output, low s, defined
